@@ -55,6 +55,26 @@ func defaultStartName(g *spec.Grammar, idx int) *spec.Grammar {
 		}
 	}
 	g.NTs[g.Start].Name = "start"
+	if idx%18 == 15 && len(g.NTs) > 1 { // odd indices: the campaigns render those with a random layout
+		// the default applies to a symbol that is known from its rules only: no %type line for it
+		// (its value is then never used) and its rules do not come first in the file
+		g.NTs[g.Start].Tag = ""
+		var first, rest []spec.Rule
+		for _, ru := range g.Rules {
+			if ru.Lhs == g.Start {
+				rest = append(rest, ru)
+			} else {
+				first = append(first, ru)
+			}
+		}
+		if len(first) > 0 {
+			g.Rules = append(first, rest...)
+		}
+		for k := range g.Rules {
+			g.Rules[k].Act = spec.Act{}
+		}
+		g.DefaultActs()
+	}
 	return g
 }
 
